@@ -297,6 +297,8 @@ def judge_templates(top, records, defs, resnames, case1, user=None):
             bad("isomorphic-residues-share-template", f"residues {i},{j} sizes differ")
         if sorted(di["names"]) != sorted(dj["names"]) and keys[i] == keys[j]:
             bad("different-atom-names-different-template", f"residues {i},{j} have different atom names but share key {keys[i]}")
+        if not same and keys[i] == keys[j] and keys[i] is not None:
+            bad("different-bond-graphs-different-template", f"residues {i},{j} have the same atom names but differently bonded atoms and share template {keys[i]}")
     # optimisation verdicts.  GenerateTemplates optimises in two stages per attempt; the verdict of the second one decides
     # whether the template counts as optimised, and then ALL bond / constraint / angle / improper targets of the residue
     # must hold, whatever list of interaction types polyply handed to its optimiser.  A positive first-stage verdict is
